@@ -1144,6 +1144,22 @@ func CheckC13(c *Ctx) {
 	// once AssetBegin has succeeded the asset is ended: between AssetBegin's own error branch and
 	// the strategy loop nothing leaves the iteration (an asset that was begun and never ended stays
 	// "begun" in the report: a later run cannot begin it again)
+	// ... and an asset whose AssetBegin failed is not written: the statement after AssetBegin is
+	// its error branch and leaves the iteration
+	{
+		handled := false
+		if rest := assetBody.List[idx["AssetBegin"]+1 : idx["loop"]]; len(rest) > 0 {
+			if is, isIf := rest[0].(*ast.IfStmt); isIf && is.Else == nil {
+				if kind, exits := endsWithExit(is.Body); exits && kind == "continue" {
+					handled = true
+				}
+			}
+		}
+		run.Oblige(handled)
+		if !handled {
+			c.violate("backtest/protocol", site+".worker", "AssetBegin failure not left", assetBody.List[idx["AssetBegin"]].Pos(), "when AssetBegin fails the worker goes on and writes the strategies of an asset that was not begun (the error branch right after AssetBegin must leave the iteration)")
+		}
+	}
 	for k, s := range assetBody.List[idx["AssetBegin"]+1 : idx["loop"]] {
 		if k == 0 {
 			if _, isIf := s.(*ast.IfStmt); isIf {
@@ -1267,6 +1283,7 @@ func CheckC13(c *Ctx) {
 	c.defaultWhenEmpty("backtest/protocol", site+".Run", info, runFi.Decl, "Strategies")
 	c.defaultWhenEmpty("backtest/protocol", site+".Run", info, runFi.Decl, "Names")
 	c.writeArguments(wFi, site)
+	c.writeConsumes()
 	c.resultFields()
 	c.checkStepSpecs([]stepSpec{countTransactionsSpec})
 	// races
@@ -2764,111 +2781,162 @@ func exprString2(s ast.Stmt) string {
 func (c *Ctx) defaultWhenEmpty(rule, site string, info *types.Info, fd *ast.FuncDecl, field string) {
 	run := c.Run
 	n := 0
+	bodies := []*ast.BlockStmt{fd.Body}
+	for _, fi := range c.P.Decls {
+		if fi.Decl == fd {
+			bodies = c.familyBodies(fi)
+		}
+	}
+	defer func() {
+		// the default itself is documented behaviour ("in the absence of explicitly defined …"):
+		// with no assignment left, a caller who configures nothing gets nothing processed
+		run.Oblige(n > 0)
+		if n == 0 {
+			c.violate(rule, site, "no default "+field, fd.Pos(), "nothing assigns the default "+field+" any more: a run configured without "+field+" processes none instead of the documented default")
+		}
+	}()
 	var stack []ast.Node
-	ast.Inspect(fd.Body, func(nd ast.Node) bool {
-		if nd == nil {
-			stack = stack[:len(stack)-1]
-			return true
-		}
-		stack = append(stack, nd)
-		as, ok := nd.(*ast.AssignStmt)
-		if !ok {
-			return true
-		}
-		for _, l := range as.Lhs {
-			sel, isSel := ast.Unparen(l).(*ast.SelectorExpr)
-			if !isSel || sel.Sel.Name != field {
-				continue
+	for _, body := range bodies {
+		ast.Inspect(body, func(nd ast.Node) bool {
+			if nd == nil {
+				stack = stack[:len(stack)-1]
+				return true
 			}
-			if v, isF := info.ObjectOf(sel.Sel).(*types.Var); !isF || !v.IsField() {
-				continue
+			stack = append(stack, nd)
+			as, ok := nd.(*ast.AssignStmt)
+			if !ok {
+				return true
 			}
-			n++
-			why := "the configured " + field + " are replaced unconditionally"
-			for i := len(stack) - 2; i >= 0; i-- {
-				is, isIf := stack[i].(*ast.IfStmt)
-				if !isIf {
+			for _, l := range as.Lhs {
+				sel, isSel := ast.Unparen(l).(*ast.SelectorExpr)
+				if !isSel || sel.Sel.Name != field {
 					continue
 				}
-				// the assignment must be in the then-branch
-				if as.Pos() < is.Body.Pos() || as.End() > is.Body.End() {
-					why = "the configured " + field + " are replaced in the else-branch of `" + exprString(is.Cond) + "`"
-					break
+				if v, isF := info.ObjectOf(sel.Sel).(*types.Var); !isF || !v.IsField() {
+					continue
 				}
-				be, isBin := ast.Unparen(is.Cond).(*ast.BinaryExpr)
-				if !isBin {
-					why = "the condition `" + exprString(is.Cond) + "` is not a test of the number of " + field + " (undecided, fails closed)"
-					break
-				}
-				lenOf := func(e ast.Expr) bool {
-					call, ok := ast.Unparen(e).(*ast.CallExpr)
-					if !ok || len(call.Args) != 1 {
-						return false
+				n++
+				why := "the configured " + field + " are replaced unconditionally"
+				// an early return in front of the assignment, taken exactly when some are configured
+				// (`if len(x.F) != 0 { return … }` in a helper that applies the default)
+				guardedByReturn := false
+				for i := len(stack) - 2; i >= 0 && !guardedByReturn; i-- {
+					blk, isBlk := stack[i].(*ast.BlockStmt)
+					if !isBlk {
+						continue
 					}
-					id, ok := call.Fun.(*ast.Ident)
-					if !ok || id.Name != "len" {
-						return false
-					}
-					s2, ok := ast.Unparen(call.Args[0]).(*ast.SelectorExpr)
-					return ok && s2.Sel.Name == field
-				}
-				var k int64
-				op := be.Op
-				switch {
-				case lenOf(be.X):
-					v, isC := constInt(info, be.Y)
-					if !isC {
-						why = "undecided condition `" + exprString(is.Cond) + "` (fails closed)"
-					}
-					k = v
-				case lenOf(be.Y):
-					v, isC := constInt(info, be.X)
-					if !isC {
-						why = "undecided condition `" + exprString(is.Cond) + "` (fails closed)"
-					}
-					k = v
-					// k op len  ==  len op' k
-					op = map[token.Token]token.Token{token.LSS: token.GTR, token.GTR: token.LSS, token.LEQ: token.GEQ, token.GEQ: token.LEQ, token.EQL: token.EQL, token.NEQ: token.NEQ}[op]
-				default:
-					why = "the condition `" + exprString(is.Cond) + "` is not a test of the number of " + field + " (undecided, fails closed)"
-				}
-				if strings.HasPrefix(why, "the configured") {
-					good := true
-					for _, ln := range []int64{0, 1, 2} {
-						var v bool
-						switch op {
-						case token.EQL:
-							v = ln == k
-						case token.NEQ:
-							v = ln != k
-						case token.LSS:
-							v = ln < k
-						case token.LEQ:
-							v = ln <= k
-						case token.GTR:
-							v = ln > k
-						case token.GEQ:
-							v = ln >= k
+					for _, st := range blk.List {
+						if st.End() > as.Pos() {
+							break
 						}
-						if v != (ln == 0) {
-							good = false
+						is, isIf := st.(*ast.IfStmt)
+						if !isIf || is.Else != nil || is.Init != nil {
+							continue
+						}
+						if kind, exits := endsWithExit(is.Body); !exits || kind != "return" {
+							continue
+						}
+						exact := true
+						for _, ln := range []int64{0, 1, 2} {
+							v, decided := lenCondAt(info, is.Cond, exprString(sel), ln)
+							if !decided || v != (ln != 0) {
+								exact = false
+							}
+						}
+						if exact {
+							guardedByReturn = true
 						}
 					}
-					if good {
-						why = ""
-					} else {
-						why = "the configured " + field + " are replaced under `" + exprString(is.Cond) + "`, which is not \"none were configured\""
-					}
 				}
-				break
+				if guardedByReturn {
+					run.Oblige(true)
+					continue
+				}
+				for i := len(stack) - 2; i >= 0; i-- {
+					is, isIf := stack[i].(*ast.IfStmt)
+					if !isIf {
+						continue
+					}
+					// the assignment must be in the then-branch
+					if as.Pos() < is.Body.Pos() || as.End() > is.Body.End() {
+						why = "the configured " + field + " are replaced in the else-branch of `" + exprString(is.Cond) + "`"
+						break
+					}
+					be, isBin := ast.Unparen(is.Cond).(*ast.BinaryExpr)
+					if !isBin {
+						why = "the condition `" + exprString(is.Cond) + "` is not a test of the number of " + field + " (undecided, fails closed)"
+						break
+					}
+					lenOf := func(e ast.Expr) bool {
+						call, ok := ast.Unparen(e).(*ast.CallExpr)
+						if !ok || len(call.Args) != 1 {
+							return false
+						}
+						id, ok := call.Fun.(*ast.Ident)
+						if !ok || id.Name != "len" {
+							return false
+						}
+						s2, ok := ast.Unparen(call.Args[0]).(*ast.SelectorExpr)
+						return ok && s2.Sel.Name == field
+					}
+					var k int64
+					op := be.Op
+					switch {
+					case lenOf(be.X):
+						v, isC := constInt(info, be.Y)
+						if !isC {
+							why = "undecided condition `" + exprString(is.Cond) + "` (fails closed)"
+						}
+						k = v
+					case lenOf(be.Y):
+						v, isC := constInt(info, be.X)
+						if !isC {
+							why = "undecided condition `" + exprString(is.Cond) + "` (fails closed)"
+						}
+						k = v
+						// k op len  ==  len op' k
+						op = map[token.Token]token.Token{token.LSS: token.GTR, token.GTR: token.LSS, token.LEQ: token.GEQ, token.GEQ: token.LEQ, token.EQL: token.EQL, token.NEQ: token.NEQ}[op]
+					default:
+						why = "the condition `" + exprString(is.Cond) + "` is not a test of the number of " + field + " (undecided, fails closed)"
+					}
+					if strings.HasPrefix(why, "the configured") {
+						good := true
+						for _, ln := range []int64{0, 1, 2} {
+							var v bool
+							switch op {
+							case token.EQL:
+								v = ln == k
+							case token.NEQ:
+								v = ln != k
+							case token.LSS:
+								v = ln < k
+							case token.LEQ:
+								v = ln <= k
+							case token.GTR:
+								v = ln > k
+							case token.GEQ:
+								v = ln >= k
+							}
+							if v != (ln == 0) {
+								good = false
+							}
+						}
+						if good {
+							why = ""
+						} else {
+							why = "the configured " + field + " are replaced under `" + exprString(is.Cond) + "`, which is not \"none were configured\""
+						}
+					}
+					break
+				}
+				run.Oblige(why == "")
+				if why != "" {
+					c.violate(rule, site, "default "+field, as.Pos(), why+": what the caller asked for is not what is processed")
+				}
 			}
-			run.Oblige(why == "")
-			if why != "" {
-				c.violate(rule, site, "default "+field, as.Pos(), why+": what the caller asked for is not what is processed")
-			}
-		}
-		return true
-	})
+			return true
+		})
+	}
 	run.Count("default_"+strings.ToLower(field), n)
 }
 
@@ -3091,4 +3159,63 @@ func (c *Ctx) tiingoStartDate() {
 	}
 	run.Count("tiingo_date_layouts", n)
 	run.Floor("tiingo_date_layouts", 1)
+}
+
+// writeConsumes: the worker hands Write three streams fed by one Duplicate and one
+// ComputeWithOutcome; a stream that Write leaves unread blocks its producer, and with it the
+// other two, so the result is never delivered. Rule (go/cfg, may-analysis): in the Write method
+// of every implementation of backtest.Report no way from the entry to a return avoids a mention
+// of each channel parameter (a call it is handed to, a goroutine that drains it, a receive).
+func (c *Ctx) writeConsumes() {
+	run := c.Run
+	run.Explanation += " Every stream handed to a report's Write is taken up (passed on, drained or received from) on every way through Write."
+	n := 0
+	for _, nm := range c.implementers("backtest", "Report") {
+		fi := c.methodDecl(nm, "Write")
+		if fi == nil || fi.Decl.Body == nil || fi.Decl.Type.Params == nil {
+			continue
+		}
+		info := fi.Pkg.TypesInfo
+		site := "backtest.(" + nm.Obj().Name() + ").Write"
+		for _, fl := range fi.Decl.Type.Params.List {
+			for _, name := range fl.Names {
+				obj := info.ObjectOf(name)
+				if obj == nil {
+					continue
+				}
+				if _, isChan := obj.Type().Underlying().(*types.Chan); !isChan {
+					continue
+				}
+				n++
+				mentions := func(nd ast.Node) bool {
+					id, ok := nd.(*ast.Ident)
+					return ok && info.Uses[id] == obj
+				}
+				// a go statement or a deferred literal that mentions the stream takes it up
+				event := func(nd ast.Node) bool {
+					if mentions(nd) {
+						return true
+					}
+					if g, isGo := nd.(*ast.GoStmt); isGo {
+						found := false
+						ast.Inspect(g, func(m ast.Node) bool {
+							if m != nil && mentions(m) {
+								found = true
+							}
+							return !found
+						})
+						return found
+					}
+					return false
+				}
+				exits := exitsWithout(fi.Decl.Body, nil, event, func(*ast.ReturnStmt) bool { return false })
+				run.Oblige(len(exits) == 0)
+				if len(exits) > 0 {
+					c.violate("backtest/write-consumes", site, "stream "+name.Name, exits[0], "Write can return without having taken up the stream "+name.Name+": the stage that feeds it blocks, and with it the streams computed from the same snapshots - the result of this pair is never delivered")
+				}
+			}
+		}
+	}
+	run.Count("write_streams", n)
+	run.Floor("write_streams", 6)
 }
